@@ -311,3 +311,243 @@ func VerifC10TruncBytes() {
 		vAssert(err == ErrTUintNotMinimal, "leading zero byte is ErrTUintNotMinimal")
 	}
 }
+
+// ---------------------------------------------------------------- item 3
+
+type c10Rec struct {
+	typ uint64
+	val []byte
+}
+
+// c10StreamLenMax bounds the declared record lengths of the explored domain
+// (the engine enumerates the feasible values of an allocation size): every
+// declared length is <= c10StreamLenMax or > 65535.
+const c10StreamLenMax = 16
+
+const (
+	c10ModeDecode = iota
+	c10ModeDecodeP2P
+	c10ModeParsed
+	c10ModeParsedP2P
+)
+
+// c10RefStream is the BOLT-1 canonicity predicate for a TLV stream whose
+// known records are 1 (u64, 8 bytes), 2 (bytes) and 5 (u16, 2 bytes): BigSize
+// type and length minimally encoded, types strictly increasing, value bytes
+// present, known fixed-size records have exactly their size, and on the p2p
+// path length <= 65535. While walking it restricts the domain of declared
+// lengths (see c10StreamLenMax; huge selects whether lengths >= 2^63 are in).
+func c10RefStream(b []byte, mode int, huge bool) (bool, []c10Rec) {
+	p2p := mode == c10ModeDecodeP2P || mode == c10ModeParsedP2P
+	var recs []c10Rec
+	pos := 0
+	first := true
+	var prev uint64
+	for pos < len(b) {
+		st, typ, n := c10RefBigSizeDec(b[pos:])
+		if st != c10VarOK {
+			return false, nil
+		}
+		pos += n
+		if !first && typ <= prev {
+			return false, nil
+		}
+		st, l, n := c10RefBigSizeDec(b[pos:])
+		if st != c10VarOK {
+			return false, nil
+		}
+		pos += n
+		// ---- explored domain of declared lengths ----
+		allocates := !p2p && (typ == 2 || (mode == c10ModeParsed && typ != 1 && typ != 5))
+		if allocates {
+			// make([]byte, l) / make([]byte, 0, l) with an attacker-chosen l on
+			// the non-p2p path: allocation bounds are outside the claim
+			vAssume(l <= c10StreamLenMax)
+		} else {
+			vAssume(l <= c10StreamLenMax || l > 65535)
+		}
+		if !huge {
+			vAssume(l < 1<<63)
+		}
+		// ---- predicate ----
+		if p2p && l > 65535 {
+			return false, nil
+		}
+		if typ == 1 && l != 8 {
+			return false, nil
+		}
+		if typ == 5 && l != 2 {
+			return false, nil
+		}
+		if l > uint64(len(b)-pos) {
+			return false, nil
+		}
+		end := pos + int(l)
+		recs = append(recs, c10Rec{typ: typ, val: b[pos:end]})
+		pos = end
+		first, prev = false, typ
+	}
+	return true, recs
+}
+
+func c10StreamRun(huge bool, lmax int) {
+	mode := vChoice("mode", 4)
+	var n int
+	if huge {
+		// only the non-p2p decoder without parsed types, and only buffers that
+		// start with a one-byte type followed by a 9-byte BigSize length
+		if mode != c10ModeDecode {
+			vAssume(false)
+		}
+		n = 10
+	} else {
+		// band 0: n = 0..L-2, band 1: n = L-1, band 2: n = L (bands exist so
+		// that the long buffers can run as separate processes)
+		switch vChoice("band", 3) {
+		case 0:
+			n = vChoice("nsmall", lmax-1)
+		case 1:
+			n = lmax - 1
+		default:
+			n = lmax
+		}
+	}
+	b := vBytes("b", n)
+	if huge {
+		vAssume(b[0] < 0xfd && b[1] == 0xff)
+	}
+	refOK, recs := c10RefStream(b, mode, huge)
+
+	var (
+		u64 uint64 = 0x1122334455667788
+		vb         = []byte{0xee}
+		u16 uint16 = 0x99aa
+	)
+	s := MustNewStream(
+		MakePrimitiveRecord(1, &u64),
+		MakePrimitiveRecord(2, &vb),
+		MakePrimitiveRecord(5, &u16),
+	)
+	in := append([]byte{}, b...)
+	r := bytes.NewReader(in)
+	var (
+		err    error
+		parsed TypeMap
+	)
+	switch mode {
+	case c10ModeDecode:
+		err = s.Decode(r)
+	case c10ModeDecodeP2P:
+		err = s.DecodeP2P(r)
+	case c10ModeParsed:
+		parsed, err = s.DecodeWithParsedTypes(r)
+	default:
+		parsed, err = s.DecodeWithParsedTypesP2P(r)
+	}
+	vObserve("mode", mode)
+	vObserve("accepted", err == nil)
+	vAssert((err == nil) == refOK, "a TLV stream is accepted exactly when it is canonical (BOLT-1 reference)")
+	if err != nil {
+		vReach("reject")
+		return
+	}
+	vReach("accept")
+	vAssert(r.Len() == 0, "an accepted stream is consumed completely")
+
+	// decoded values are the big-endian / raw value bytes of the records
+	// present; absent records leave their targets untouched
+	var has1, has2, has5, unknown bool
+	for _, rec := range recs {
+		switch rec.typ {
+		case 1:
+			has1 = true
+			vAssert(u64 == c10RefBE(rec.val), "record 1 decodes to the big-endian u64")
+		case 2:
+			has2 = true
+			vAssert(bytes.Equal(vb, rec.val), "record 2 decodes to its value bytes")
+		case 5:
+			has5 = true
+			vAssert(u16 == uint16(c10RefBE(rec.val)), "record 5 decodes to the big-endian u16")
+		default:
+			unknown = true
+		}
+	}
+	if !has1 {
+		vAssert(u64 == 0x1122334455667788, "absent record 1 leaves its target untouched")
+	}
+	if !has2 {
+		vAssert(len(vb) == 1 && vb[0] == 0xee, "absent record 2 leaves its target untouched")
+	}
+	if !has5 {
+		vAssert(u16 == 0x99aa, "absent record 5 leaves its target untouched")
+	}
+	if len(recs) > 0 {
+		vReach("records")
+	}
+	if unknown {
+		vReach("unknown-record")
+	}
+
+	// parsed types: exactly the records present; nil for known, value bytes for unknown
+	if mode == c10ModeParsed || mode == c10ModeParsedP2P {
+		vAssert(len(parsed) == len(recs), "parsed-type map has one entry per record")
+		for _, rec := range recs {
+			v, ok := parsed[Type(rec.typ)]
+			vAssert(ok, "every record present is in the parsed-type map")
+			if rec.typ == 1 || rec.typ == 2 || rec.typ == 5 {
+				vAssert(v == nil, "known records map to nil")
+			} else {
+				vAssert(v != nil && bytes.Equal(v, rec.val), "unknown records map to their value bytes")
+			}
+		}
+	} else if unknown {
+		return // Decode/DecodeP2P discard unknown records by design: nothing to re-encode from
+	}
+
+	// re-encode the decoded records plus the parsed unknown records in type order
+	var out []Record
+	for _, rec := range recs {
+		switch rec.typ {
+		case 1:
+			out = append(out, MakePrimitiveRecord(1, &u64))
+		case 2:
+			out = append(out, MakePrimitiveRecord(2, &vb))
+		case 5:
+			out = append(out, MakePrimitiveRecord(5, &u16))
+		default:
+			v := parsed[Type(rec.typ)]
+			out = append(out, MakeStaticRecord(Type(rec.typ), nil, uint64(len(v)), StubEncoder(v), nil))
+		}
+	}
+	s2, e2 := NewStream(out...)
+	vAssert(e2 == nil, "records in decoded order form a canonical stream")
+	var w bytes.Buffer
+	vAssert(s2.Encode(&w) == nil, "re-encode cannot fail")
+	vAssert(bytes.Equal(w.Bytes(), b), "decode-then-encode reproduces the input")
+	vReach("reencoded")
+}
+
+// VerifC10Stream: Stream.Decode / DecodeP2P / DecodeWithParsedTypes(P2P) on an
+// arbitrary buffer of <= L bytes: no panic, terminates, accepted iff canonical,
+// decoded values and parsed-type map are those of the reference parse, and
+// re-encoding reproduces the input. Declared lengths < 2^63.
+func VerifC10Stream() {
+	c10StreamRun(false, c10StreamQuick)
+}
+
+// VerifC10StreamDeep: the same with buffers up to c10StreamDeep bytes.
+func VerifC10StreamDeep() {
+	c10StreamRun(false, c10StreamDeep)
+}
+
+const (
+	c10StreamQuick = 6
+	c10StreamDeep  = 9
+)
+
+// VerifC10StreamHugeLen: the non-p2p Decode on a 10-byte buffer holding a
+// one-byte type and a 9-byte BigSize length (>= 2^32, lengths >= 2^63
+// admitted): the decoder converts the length to int64 for io.CopyN.
+func VerifC10StreamHugeLen() {
+	c10StreamRun(true, 10)
+}
